@@ -368,11 +368,56 @@ def _task_chains(task):
     return t
 
 
+def _check_dataset_front_end(t: Tally):
+    """The same promise through the dataset builder: create_dataset(..., parse_bad_pkts=False) holds no row of a packet that is longer or
+    shorter than its definition says; with True (explicit or by default) it holds what the generator yields."""
+    import os
+    from mc import VERIF_ROOT
+    from mc.kernel import observed_warnings
+    from space_packet_parser import xarr
+    doc = docs.selector_doc([([PType("DU8_T", "Integer", IntEnc(8)), PType("DU16_T", "Integer", IntEnc(16))], [Param("DA", "DU8_T"), Param("DB", "DU16_T")],
+                              [("p", "DA"), ("p", "DB")])], root_abstract=True)
+    defn = load_doc(doc)
+    good = lambda a: docs.packet_for(0, format(a, "08b") + format(a * 257, "016b"), seqcount=a)          # noqa: E731
+    long_ = lambda a: docs.packet_for(0, format(a, "08b") + format(a * 257, "016b") + "11111111", seqcount=a)   # noqa: E731
+    short = lambda a: docs.packet_for(0, format(a, "08b") + "00000001", seqcount=a)                      # noqa: E731
+    streams = {"good,long,short,good": ([good(1), long_(2), short(3), good(4)], [1, 4]), "long first": ([long_(5), good(6)], [6]),
+               "short last": ([good(7), good(8), short(9)], [7, 8]), "only bad": ([long_(10), short(11)], [])}
+    path = os.path.join(VERIF_ROOT, ".work", f"c14_ds_{os.getpid()}.bin")
+    os.makedirs(os.path.dirname(path), exist_ok=True)
+    for name, (pkts, good_values) in streams.items():
+        with open(path, "wb") as f:
+            f.write(b"".join(pkts))
+        for kwargs in ({"parse_bad_pkts": False}, {"parse_bad_pkts": True}, {}):
+            t.evals += 1
+            t.nontrivial += 1
+            case = {"dataset_front_end": True, "stream": name, "kwargs": kwargs}
+            try:
+                with observed_warnings():
+                    with open(path, "rb") as fh:
+                        want = [int(p["DA"]) for p in defn.packet_generator(fh, **kwargs) if "DA" in p]
+                    ds = xarr.create_dataset(path, defn, **kwargs)
+                got = [int(x) for x in ds[0]["DA"].values] if 0 in ds else []
+            except Exception as e:  # noqa: BLE001
+                t.violation({"kind": "create-dataset-raised", "exc": type(e).__name__}, case, observed=str(e)[:200])
+                continue
+            if kwargs.get("parse_bad_pkts") is False and got != good_values:
+                t.violation({"kind": "bad-packet-in-dataset"}, case, expected=good_values, observed=got,
+                            note="with parse_bad_pkts=False the dataset holds a row of a packet whose length differs from its definition")
+            elif got != want:
+                t.violation({"kind": "dataset-differs-from-generator"}, case, expected=want, observed=got)
+    try:
+        os.unlink(path)
+    except OSError:
+        pass
+
+
 def run(ctx):
     n = len(layouts(ctx.tier))
     tasks = [{"layouts": [i], "via": "xml", "tier": ctx.tier} for i in range(n)] + [{"layouts": list(range(n)), "via": "objects", "tier": ctx.tier}]
     tally = fan_out(_task, tasks, jobs=ctx.jobs, seed=ctx.seed)
     tally.merge(fan_out(_task_chains, [{"via": "xml"}, {"via": "objects"}], jobs=2, seed=ctx.seed))
+    _check_dataset_front_end(tally)
     coverage = {
         "programs": tally.programs,
         "exhaustive": True,
@@ -381,7 +426,7 @@ def run(ctx):
                   f"x LEN 0..{5 if ctx.quick else 9} x every data length 1..required+{3 if ctx.quick else 6} bytes x {3 if ctx.quick else 4} fills x parse_bad_pkts {{T,F}}, from XML and from objects; "
                   "6 multi-container layouts (a record container with a length and a payload sized by it referenced twice, over every byte string of <= 7 bytes from {0,1,2}; base container with a field after the header, two-level inheritance with abstract and concrete middle levels, a nested "
                   "container between fields, a value-selected leaf) x every data length 1..8 bytes (so that packets end on every container boundary) x 4 fills x 2 leading bytes; "
-                  "per layout every stream of 2..3 packets over {exactly consumed, 2 bytes longer, 1 byte shorter} with warnings attributed per next() call"),
+                  "the dataset builder as a front end (4 streams of good / too long / too short packets x parse_bad_pkts False, True, default); per layout every stream of 2..3 packets over {exactly consumed, 2 bytes longer, 1 byte shorter} with warnings attributed per next() call"),
         "rule": "one evaluation = one single-packet generator run; distinct non-trivial = distinct (layout, LEN) pairs swept over all lengths",
     }
     return {"level": LEVEL, "tally": tally, "coverage": coverage,
@@ -390,6 +435,10 @@ def run(ctx):
 
 
 def replay(case):
+    if case.get("dataset_front_end"):
+        t = Tally()
+        _check_dataset_front_end(t)
+        return next((v for v in t.violations if v["case"].get("stream") == case.get("stream") and v["case"].get("kwargs") == case.get("kwargs")), None)
     if "chain" in case:
         t = _task_chains({"via": case.get("via", "xml")})
         return next((v for v in t.violations if v["case"].get("chain") == case["chain"] and v["case"]["packet"] == case["packet"]
